@@ -82,7 +82,7 @@ def explore(tier="quick", prop="C09"):
     rng = random.Random(common.seed() * 613 + 3)
     stats = {"evaluations": 0, "distinct_nontrivial": 0, "samples": []}
     failure = None
-    reps = 12 if tier == "quick" else 300
+    reps = 60 if tier == "quick" else 600
     for r in range(reps):
         for kind in ("sup", "semi", "knn", "unsup"):
             try:
